@@ -226,8 +226,40 @@ fn midstream_case(k: u64) -> Case {
     Case { prop: "C18".into(), gen: "M-midstream".into(), bytes, trap: trap.into(), fault_free: false, enc: "raw".into(), ..Case::default() }
 }
 
+/// Fifth enumeration: streams made of blank-like bytes only (every ASCII "white space" by some
+/// definition, NUL, DEL, ESC) with at most one letter: what counts as an empty stream.
+pub const BLANKISH: [u8; 10] = [0x20, 0x09, 0x0A, 0x0D, 0x0C, 0x0B, 0x1B, 0x7F, 0x00, 0x41];
+pub fn blankish_count() -> u64 {
+    (1..=4u32).map(|k| 10u64.pow(k)).sum::<u64>() * 4 * 2
+}
+fn blankish_case(k: u64) -> Case {
+    let trap = TRAPS[(k % 4) as usize];
+    let k = k / 4;
+    let utf16 = k % 2 == 1;
+    let mut i = k / 2;
+    let mut len = 1usize;
+    loop {
+        let n = 10u64.pow(len as u32);
+        if i < n {
+            break;
+        }
+        i -= n;
+        len += 1;
+    }
+    let mut bytes = Vec::new();
+    for _ in 0..len {
+        let b = BLANKISH[(i % 10) as usize];
+        bytes.push(b);
+        if utf16 {
+            bytes.push(0);
+        }
+        i /= 10;
+    }
+    Case { prop: "C18".into(), gen: "W-blankish".into(), bytes, trap: trap.into(), fault_free: false, enc: "raw".into(), ..Case::default() }
+}
+
 pub fn exhaustive_count(l: usize) -> u64 {
-    small_count(l) + shapes_count() + byte_token_count() + midstream_count() + ztail_count()
+    small_count(l) + shapes_count() + byte_token_count() + blankish_count() + midstream_count() + ztail_count()
 }
 
 fn small_bytes(mut i: u64) -> Vec<u8> {
@@ -284,11 +316,14 @@ pub fn generate(run_seed: u64, corpus: &Corpus, sw: &Swarm, i: u64, exhaustive: 
     if i < exhaustive && i >= exhaustive - ztail_count() - midstream_count() {
         return midstream_case(i - (exhaustive - ztail_count() - midstream_count()));
     }
-    if i < exhaustive && i >= exhaustive - ztail_count() - midstream_count() - byte_token_count() {
-        return byte_token_case(i - (exhaustive - ztail_count() - midstream_count() - byte_token_count()));
+    if i < exhaustive && i >= exhaustive - ztail_count() - midstream_count() - blankish_count() {
+        return blankish_case(i - (exhaustive - ztail_count() - midstream_count() - blankish_count()));
     }
-    if i < exhaustive && i >= exhaustive - ztail_count() - midstream_count() - byte_token_count() - shapes_count() {
-        let k = i - (exhaustive - ztail_count() - midstream_count() - byte_token_count() - shapes_count());
+    if i < exhaustive && i >= exhaustive - ztail_count() - midstream_count() - blankish_count() - byte_token_count() {
+        return byte_token_case(i - (exhaustive - ztail_count() - midstream_count() - blankish_count() - byte_token_count()));
+    }
+    if i < exhaustive && i >= exhaustive - ztail_count() - midstream_count() - blankish_count() - byte_token_count() - shapes_count() {
+        let k = i - (exhaustive - ztail_count() - midstream_count() - blankish_count() - byte_token_count() - shapes_count());
         return Case {
             prop: "C18".into(),
             gen: "U-utf8-shapes".into(),
